@@ -411,6 +411,11 @@ func deliverHarness(oi *obsInfo) *Harness {
 func c03DeliverOAE(c *Ctx, id string, oi *obsInfo) {
 	recv := oi.deliver.Params[0].Name()
 	arg := oi.deliver.Params[1].Name()
+	for _, p := range oi.deliver.Params[1:] {
+		if strings.HasSuffix(p.Type().String(), "models.ListenerArgs") {
+			arg = p.Name() // by type: a context or trace parameter may precede it
+		}
+	}
 	h := deliverHarness(oi)
 	lab := recv + "." + oi.listener.Name()
 	c.oae(id, "deliver@"+fname(oi.deliver), oi.deliver.Pos(), h, func(st *State, out *Outcome) string {
@@ -582,6 +587,12 @@ func hasField(st *types.Struct, f *types.Var) bool {
 	for i := 0; i < st.NumFields(); i++ {
 		if st.Field(i) == f {
 			return true
+		}
+		// a part embedded by value: its fields are the struct's own
+		if embeddedPart(st.Field(i)) {
+			if es, ok := st.Field(i).Type().Underlying().(*types.Struct); ok && hasField(es, f) {
+				return true
+			}
 		}
 	}
 	return false
